@@ -29,11 +29,16 @@ def all_specs():
     return out
 
 
-def scn_for(name, specs, alter=None, two_events=False, noplacement=False):
+def scn_for(name, specs, alter=None, two_events=False, noplacement=False, hft=False):
     markets = [dict(name="M0", shares=1), dict(name="M1", shares=2),
                dict(name="IDX", cls="ProbeIndexMarket", components=["M0", "M1"])]
     ags = [dict(name="A0", menu=MENU13, program=[1, 3, 1, 5], markets=["M0", "M1"]),
            dict(name="A1", menu=MENU13, program=[2, 4, 2, 7], markets=["M0", "M1"])]
+    hk = {}
+    if hft:
+        # a high-frequency agent whose orders, cancels and fills go through the runner's second dispatch path
+        ags.append(dict(name="H0", cls="ScriptedHFAgent", menu=MENU13, program=[2, 5, 3, 1], markets=["M0", "M1"]))
+        hk = dict(maxHighFrequencyOrders=1, highFrequencySubmitRate=1.0)
     ev = {"E": {"class": "ProbeEvent", "hooks": specs}}
     if alter:
         ev["E"]["alter"] = alter
@@ -42,7 +47,7 @@ def scn_for(name, specs, alter=None, two_events=False, noplacement=False):
         ev = {"E": {"class": "ProbeEvent", "hooks": specs[:1]}, "E2": {"class": "ProbeEvent", "hooks": specs[1:]}}
         evnames = ["E", "E2"]
     # the event is listed under the FIRST session; its hooks are registered for the whole run
-    sessions = [S(0, 2, True, False, maxNormalOrders=2, events=evnames), S(1, 2, True, True, maxNormalOrders=2)]
+    sessions = [S(0, 2, True, False, maxNormalOrders=2, events=evnames, **hk), S(1, 2, True, True, maxNormalOrders=2, **hk)]
     if noplacement:
         # a session without order placement (steps in which nobody is asked) between two trading sessions
         sessions = [S(0, 1, True, True, maxNormalOrders=2, events=evnames), S(1, 2, False, False), S(2, 1, True, True, maxNormalOrders=2)]
@@ -83,6 +88,11 @@ def single_scenarios():
         for tm in (None, [1], [2]):
             n = "single:%s:noplacement_session" % spec_name([ty, b, tm, None])
             sc[n] = scn_for(n, [[ty, b, tm, None]], noplacement=True)
+    for (ty, b) in HOOK_KINDS:
+        if ty in ("order", "cancel", "execution"):
+            for tm in (None, [2], [3]):
+                n = "single:%s:hft_agent" % spec_name([ty, b, tm, None])
+                sc[n] = scn_for(n, [[ty, b, tm, None]], hft=True)
     sc["alter:order-before"] = scn_for("alter:order-before", [["order", True, None, None]], alter=["price", 97.5])
     return sc
 
